@@ -192,6 +192,12 @@ func (rb *ResponseBuffer) Flush() {
 	}
 }
 
+// Written returns whether a response header has been written to rb
+// (whether it was then buffered or streamed).
+func (rb *ResponseBuffer) Written() bool {
+	return rb.wroteHeader
+}
+
 // Buffered returns whether rb has decided to buffer the response.
 func (rb *ResponseBuffer) Buffered() bool {
 	return !rb.stream
